@@ -676,6 +676,8 @@ def _history(ctx, rng, case, c, df, kw, value, x, feats, pm,
             firsts = [v for v in pd.unique(df[idk]) if not (
                 case.lacks_output and str(v) == case.lacks_output[0])
                 and str(v) != case.lacks_all]
+            if not firsts:
+                return
             first = firsts[0]
             sub = df[df[idk] == first]
             c2, kw2 = _setup_controller(case, sub, ctx, feats)
